@@ -661,7 +661,10 @@ def cookie_full_stack_case():
     class F:
         class bus: uuid = b'guid'
     try:
-        for tamper in (False, True):
+        # ... also with a keyring directory that others may search but neither read nor write (the specification forbids only those)
+        for tamper, mode in ((False, None), (True, None), (False, 0o711), (False, 0o710), (False, 0o701), (True, 0o711)):
+            if mode is not None:
+                os.chmod(keyring, mode)
             p = bus.BusProtocol()
             p.factory = F
             t = StringTransport()
@@ -674,7 +677,7 @@ def cookie_full_stack_case():
             p.dataReceived(b'\0AUTH DBUS_COOKIE_SHA1 ' + binascii.hexlify(str(os.getuid()).encode('ascii')) + b'\r\n')
             out = lines()
             if len(out) != 1 or not out[0].startswith(b'DATA '):
-                return 'AUTH DBUS_COOKIE_SHA1 <uid> answered %r, expected a DATA challenge' % (out,)
+                return 'AUTH DBUS_COOKIE_SHA1 <uid> (keyring directory mode %s) answered %r, expected a DATA challenge' % ('0700 as created' if mode is None else oct(mode), out)
             ctx, cid, challenge = binascii.unhexlify(out[0][5:]).split()
             cookie = None
             with open(os.path.join(keyring, ctx.decode('ascii')), 'rb') as f:
